@@ -196,7 +196,7 @@ def u_expand_message_xmd(ctx):
 
 
 UNITS["hash.expand_message_xmd"] = Unit("hash.expand_message_xmd", u_expand_message_xmd,
-                                        [f"{HASH}.expand_message_xmd", f"{HASH}.xor", f"{HASH}.i2osp"], props=("C15",))
+                                        [f"{HASH}.expand_message_xmd", f"{HASH}.xor", f"{HASH}.i2osp"], props=("C15", "C10"))
 
 
 # ------------------------------------------------------------------------------------------
